@@ -349,6 +349,11 @@ func divisibleBranch(b *ssa.BasicBlock, isDiv *types.Var) (val, ok bool) {
 	return false, false
 }
 
+// c12SharedMutation: the functions that mutate a *big.Int they did not allocate, confirmed by reading.
+var c12SharedMutation = map[string]string{
+	"(*account.Account).SetBalance": "the account's own balance counter: AccountData.Copy gives every account copy its own big.Int (C09.6), GetBalance hands out copies, and the value set is copied in (Set), not stored",
+}
+
 func c12(c *core.Ctx) {
 	const tx = "chain/transaction"
 	a := &assetRules{c: c, amountF: map[*types.Var]string{}}
@@ -1025,6 +1030,31 @@ func c12(c *core.Ctx) {
 		}
 	})
 
+	c.Clause("C12.6", "amounts are values, not shared counters: in the transaction, consensus and account packages and in the EVM's entry points no mutating *big.Int method (Add, Sub, Set, …) is called on a receiver that is not freshly allocated — an amount taken from a decoded transaction or read from state that is changed in place changes for everybody who holds the pointer (the supply is raised by the mutated amount)")
+	c.Run("no-shared-bigint-mutation", func() {
+		n, nFn := 0, 0
+		seq := map[string]int{}
+		for _, fn := range c.SrcFuncs {
+			r := core.RelPkg(fn)
+			if isTestHelper(c, fn) || !(r == "chain/transaction" || r == "chain/consensus" || r == "chain/account" || (r == "chain/vm" && strings.HasSuffix(c.Fset.Position(fn.Pos()).Filename, "/evm.go"))) {
+				continue
+			}
+			nFn++
+			for _, call := range sharedBigMutations(fn) {
+				n++
+				name := shortFn(fn)
+				seq[name]++
+				why, listed := c12SharedMutation[name]
+				c.Check("bigint-mutated-in-place@"+name+seqSuffix(seq[name]), "alias-write", listed, call.Pos(), "%s calls %s on a *big.Int that is not freshly allocated; listed=%v: %s", name, core.CalleeObj(call).Name(), listed, why)
+			}
+		}
+		c.Floor("functions-scanned", nFn, 200)
+		c.Note("in-place big.Int mutations on shared receivers: %d", n)
+	})
+
+	c.Clause("C12.7", "a change of the supply record survives log merging in both directions: IsValuable keeps a log unless old and new value are equal — every comparison of old and new in it is an (in)equality, never an ordering test (a burn is a decrease; a dropped supply log leaves the issuer's asset-code trie unsaved while the holder's equity went down)")
+	c.Run("IsValuable-symmetric", func() { c12IsValuable(c) })
+
 	c.NotDecidedf("Σ equity over all holders = recorded total supply as an invariant over histories of transactions (arithmetic over runtime state; only the per-transaction shape — same amount on both sides, guards, closed writer sets — is decided)")
 	c.NotDecidedf("that no holder's equity becomes negative as a value: decided only structurally (non-negative amount; debit guarded by equity ≥ amount on the divisible path; indivisible path debits the whole holding)")
 	c.NotDecidedf("the journalled undo of the equity / supply logs (C07), the contents of Account.SetEquityState / SetAssetCodeTotalSupply themselves, and error exits after a failed READ between the two writes (they return a transaction-level error; the caller discards the whole transaction)")
@@ -1281,4 +1311,38 @@ func freezeGuardRet(c *core.Ctx, a *assetRules, fn *ssa.Function) {
 		}
 	}
 	c.Check("judgeReplenish?frozen", "quantity-guard", len(calls) > 0 && okArgs && noAcceptWithout(fn, cut), fn.Pos(), "judgeReplenish refuses when the freeze state of the judged asset reads \"true\"")
+}
+
+// c12IsValuable: every old/new comparison in account.IsValuable is symmetric. Evaluated under C12.7 and C07.9.
+func c12IsValuable(c *core.Ctx) {
+	fn := c.Fn("chain/account.IsValuable")
+	n := 0
+	for _, b := range fn.Blocks {
+		for _, in := range b.Instrs {
+			bo, ok := in.(*ssa.BinOp)
+			if !ok {
+				continue
+			}
+			switch bo.Op {
+			case token.EQL, token.NEQ, token.LSS, token.GTR, token.LEQ, token.GEQ:
+			default:
+				continue
+			}
+			// a comparison of a three-way compare result (big.Int.Cmp, bytes.Compare) with a constant
+			var cmp *ssa.Call
+			for _, x := range []ssa.Value{bo.X, bo.Y} {
+				if call, isCall := x.(*ssa.Call); isCall {
+					if o := core.CalleeObj(call); o != nil && (o.Name() == "Cmp" || o.Name() == "Compare") {
+						cmp = call
+					}
+				}
+			}
+			if cmp == nil {
+				continue
+			}
+			n++
+			c.Check("IsValuable:symmetric#"+string(rune('a'+n-1)), "comparison-shape", bo.Op == token.EQL || bo.Op == token.NEQ, bo.Pos(), "old and new value are compared for (in)equality (found %s)", bo.Op)
+		}
+	}
+	c.Floor("IsValuable/three-way-comparisons", n, 2)
 }
